@@ -125,3 +125,59 @@ Definition prof_sb (reqs : list req) (script : list resp) (log : list req) (rets
 
 Definition prof_sb_why (reqs : list req) (script : list resp) (log : list req) (rets : list resp) : list N :=
   (if list_eqb req_eqb log reqs then [] else [1%N]) ++ (if list_eqb resp_eqb rets script then [] else [2%N]).
+
+(** * Re-entrant requests
+
+    A wrapped allocator may itself issue requests through an [AllocProfiler]
+    (the one wrapping it or another instance: the tally slot is per thread, not
+    per instance) while it is serving a request.  The behaviour of the wrapped
+    allocator during a run is then a forest: each node is a request, the answer
+    the wrapped allocator gives to it, and the nested requests it issues (in
+    order) before answering.  The profiler methods are stateless with respect
+    to forwarding: a nested request is tallied and forwarded like any other. *)
+Inductive rtree :=
+| RNode (r : req) (answer : resp) (nested : rforest)
+with rforest :=
+| FNil
+| FCons (t : rtree) (f : rforest).
+
+(** State threaded through: the tally slot and the log of what the wrapped
+    allocator has received.  Result: also what each requester was handed back,
+    in the order the requests were issued (pre-order). *)
+Fixpoint prof_tree (chk : bool) (slot : option info) (log : list req) (t : rtree)
+  : res (option info * list req * list resp) :=
+  match t with
+  | RNode r answer nested =>
+      do fs <- profiler_step chk slot r;            (* tally, then the inner call *)
+      let log' := log ++ [fst fs] in                (* the wrapped allocator receives it ... *)
+      do out <- prof_forest chk (snd fs) log' nested;  (* ... issues its nested requests ... *)
+      Ok (fst (fst out), snd (fst out), answer :: snd out)   (* ... and answers; returned as is *)
+  end
+with prof_forest (chk : bool) (slot : option info) (log : list req) (f : rforest)
+  : res (option info * list req * list resp) :=
+  match f with
+  | FNil => Ok (slot, log, [])
+  | FCons t rest =>
+      do o1 <- prof_tree chk slot log t;
+      do o2 <- prof_forest chk (fst (fst o1)) (snd (fst o1)) rest;
+      Ok (fst (fst o2), snd (fst o2), snd o1 ++ snd o2)
+  end.
+
+(** Requests and answers of a forest in pre-order. *)
+Fixpoint pre_reqs_t (t : rtree) : list req :=
+  match t with RNode r _ nested => r :: pre_reqs_f nested end
+with pre_reqs_f (f : rforest) : list req :=
+  match f with FNil => [] | FCons t rest => pre_reqs_t t ++ pre_reqs_f rest end.
+
+Fixpoint pre_ans_t (t : rtree) : list resp :=
+  match t with RNode _ a nested => a :: pre_ans_f nested end
+with pre_ans_f (f : rforest) : list resp :=
+  match f with FNil => [] | FCons t rest => pre_ans_t t ++ pre_ans_f rest end.
+
+(** [Sb] for a forest: the wrapped allocator's log is the pre-order of the
+    requests, every requester got the wrapped allocator's answer. *)
+Definition nest_sb (f : rforest) (log : list req) (rets : list resp) : bool :=
+  prof_sb (pre_reqs_f f) (pre_ans_f f) log rets.
+
+Definition nest_sb_why (f : rforest) (log : list req) (rets : list resp) : list N :=
+  prof_sb_why (pre_reqs_f f) (pre_ans_f f) log rets.
